@@ -11,8 +11,10 @@ Theorem C13_stop_effects : forall w, timers_wf w ->
 Proof. exact stop_effects. Qed.
 Print Assumptions C13_stop_effects.
 
-(** Established: exactly NOTIFICATION Cease (6,0) on the tracked connection, then its close *)
-Theorem C13_stop_sends_cease : forall c w, Good c w -> w_state w = StEstablished ->
+(** Established (and, as RFC 4271 prescribes, OpenSent and OpenConfirm): exactly NOTIFICATION
+    Cease (6,0) on the tracked connection, then its close *)
+Theorem C13_stop_sends_cease : forall c w, Good c w ->
+  (w_state w = StOpenSent \/ w_state w = StOpenConfirm \/ w_state w = StEstablished) ->
   c_closing (get_conn c w) = false -> w_out w = [] ->
   w_out (peering_manual_stop w) = [OLose c; OWrite c (WNotif c_ERR_CEASE 0 [])].
 Proof. exact stop_cease. Qed.
